@@ -4,18 +4,19 @@ import vlib, trees, gens
 from vlib import enc
 from checklib import Scenario
 
-def setup(rng, mode=None, owners=False, links=False, bad=False, popts=False, relative=False):
+def setup(rng, mode=None, owners=False, links=False, bad=False, popts=False, relative=False, force_confdirs="auto", emit_confdirs=True):
     """returns dict(cmds, layers, name, sfx, confdirs, read (command reading into object 0), hist (history command or None))"""
     name = rng.choice([b"foo", b"bar"])
     sfx = rng.choice([b"conf", b".conf", b"conf", None, b""])
     confdirs = rng.choice([None, None, [b".conf.d", b".d"], [b".d"], [b".d", b".conf.d"], [b".d", b".a-much-longer-directory-format.d", b".x"]] + ([[b"/conf.d", b""]] if sfx else []))
+    if force_confdirs != "auto": confdirs = force_confdirs          # the process-wide list is set elsewhere (by another thread)
     mode = rng.randrange(4) if mode is None else mode
     cmds = []
     hist = None
     if mode == 0:                                   # econf_readDirs*, process-wide drop-in directory list
         layers = rng.choice([[b"/usr/etc", b"/etc"]] * 5 + [[b"/usr:v2/etc", b"/e;tc"]])           # any legal directory name
         cmds += trees.populate(rng, layers, name, sfx, confdirs, owners=owners, links=links)
-        if confdirs: cmds.append("confdirs " + ",".join(enc(x) for x in confdirs))
+        if confdirs and emit_confdirs: cmds.append("confdirs " + ",".join(enc(x) for x in confdirs))
         rl = [l.lstrip(b"/") for l in layers] if relative else layers      # the working directory is the root of the tree
         args = "%s %s %s %s x3d x23" % (enc(rl[0]), enc(rl[1]), enc(name), enc(sfx))
         read = "readdirs 0 " + args; hist = "history " + args
